@@ -41,7 +41,7 @@ class Prop(common.PropertyCheck):
             yield {'k': 'triple', 'T': 10 ** rng.uniform(0, 6), 'M': rng.uniform(1, 12), 'W': 10 ** rng.uniform(-9, -3)}
         for _ in range(self.budget(120, 1500)):
             yield {'k': 'data', 'neg': rng.choice(['none', 'tiny', 'small', 'large']), 'multi': rng.random() < 0.4,
-                   'cont': rng.choice(['array', 'sample', 'sample_rfi']), 'over': rng.choice([None, 'T', 'M', 'W']), 'seed': rng.randrange(1 << 30)}
+                   'cont': rng.choice(['array', 'sample', 'sample_rfi']), 'over': rng.choice([None, 'T', 'M', 'W']), 'above': rng.random() < 0.4, 'seed': rng.randrange(1 << 30)}
         # data sets without a known range whose largest value is not positive: the derived T must be refused
         for neg in ('allzero', 'nonpos', 'allzero', 'nonpos'):
             yield {'k': 'data', 'neg': neg, 'multi': rng.random() < 0.5, 'cont': 'array', 'over': rng.choice([None, 'M', 'W']), 'seed': rng.randrange(1 << 30)}
@@ -115,6 +115,8 @@ class Prop(common.PropertyCheck):
                         d[0, 1] = {'tiny': -1e-6 * (i + 1), 'small': -3.0 * (i + 1), 'large': -500.0 * (i + 1)}[case['neg']]
                     else:
                         d[:, 1] = np.abs(np.asarray(d[:, 1]))
+                    if case.get('above'):
+                        d[2, 1] = 7.5 * rng_hi          # an event far above the channel's range: T stays the range limit
                 datas.append(d)
                 col = np.asarray(d)[:, 1]
                 mins.append(float(col.min())); maxs.append(float(col.max())); ranges.append(rng_hi)
